@@ -32,8 +32,7 @@ type K int64
 // replayable) use a comparator that returns the difference of the keys instead of -1/0/+1.
 var cmpDiff bool
 
-func (a K) CompareTo(o collections.Comparable) int {
-	b := o.(K)
+func cmpIDs(a, b int64) int {
 	if cmpDiff {
 		return int(a - b)
 	}
@@ -43,6 +42,53 @@ func (a K) CompareTo(o collections.Comparable) int {
 		return 1
 	}
 	return 0
+}
+
+func (a K) CompareTo(o collections.Comparable) int { return cmpIDs(int64(a), int64(o.(K))) }
+
+// The key type and its comparator are part of the input domain.  Besides plain integers the
+// histories use keys whose comparator is coarser than Go's ==: a struct compared on its id only
+// (every key handed to the map carries a fresh tag, so a probe is never == to the stored key it
+// is comparator-equal to) and pointer keys ordered by the id they point to (every call allocates
+// a new pointer).  The model works on the comparator's quotient, the id; results are compared
+// up to the comparator (by id).
+type SK struct{ id, tag int64 }
+
+func (a SK) CompareTo(o collections.Comparable) int { return cmpIDs(a.id, o.(SK).id) }
+
+type PK struct{ id int64 }
+
+func (a *PK) CompareTo(o collections.Comparable) int { return cmpIDs(a.id, o.(*PK).id) }
+
+// keyKind: 0 integer, 1 struct{id, tag} compared on id, 2 pointer compared on *id.
+// Chosen per history from the input (run): length mod 4 = 0 integer with the difference
+// comparator, 1 integer with -1/0/+1, 2 struct keys (difference), 3 pointer keys (-1/0/+1).
+var (
+	keyKind int
+	tagSeq  int64
+)
+
+func mkKey(id int64) treemap.KeyType {
+	switch keyKind {
+	case 1:
+		tagSeq++
+		return SK{id: id, tag: tagSeq}
+	case 2:
+		return &PK{id: id}
+	}
+	return K(id)
+}
+
+func kOf(k treemap.KeyType) int64 {
+	switch x := k.(type) {
+	case K:
+		return int64(x)
+	case SK:
+		return x.id
+	case *PK:
+		return x.id
+	}
+	panic("c10: foreign key type")
 }
 
 const (
@@ -96,8 +142,6 @@ type iter struct {
 	// key the last Next returned (entry and key iterators), for the branch histogram
 	lastKey *int64
 }
-
-func kOf(k treemap.KeyType) int64 { return int64(k.(K)) }
 
 // Values are int64 or the untyped nil: nil travels through the case format as the reserved
 // integer nilCode (coq/C10/Run.v nil_code).  Where the API cannot tell "no value" from "the value
@@ -200,13 +244,13 @@ func access(m *treemap.Map, acc, k int64) *treemap.Entry {
 	case 1:
 		return m.LastEntry()
 	case 2:
-		return m.FloorEntry(K(k))
+		return m.FloorEntry(mkKey(k))
 	case 3:
-		return m.CeilingEntry(K(k))
+		return m.CeilingEntry(mkKey(k))
 	case 4:
-		return m.HigherEntry(K(k))
+		return m.HigherEntry(mkKey(k))
 	case 5:
-		return m.VerifLowerEntry(K(k))
+		return m.VerifLowerEntry(mkKey(k))
 	}
 	return nil
 }
@@ -305,7 +349,7 @@ func apply(m *treemap.Map, its *[nSlots]*iter, op Sx, st *stats) Sx {
 	case opPut:
 		before := m.Size()
 		after := classify(m, st, true, arg(1), arg(2))
-		r := optVal(m.Put(K(arg(1)), toVal(arg(2))))
+		r := optVal(m.Put(mkKey(arg(1)), toVal(arg(2))))
 		after()
 		if m.Size() != before {
 			st.mutations++
@@ -313,7 +357,7 @@ func apply(m *treemap.Map, its *[nSlots]*iter, op Sx, st *stats) Sx {
 		return r
 	case opRemove:
 		after := classify(m, st, false, arg(1), 0)
-		ok := m.Remove(K(arg(1)))
+		ok := m.Remove(mkKey(arg(1)))
 		after()
 		if ok {
 			st.mutations++
@@ -323,7 +367,7 @@ func apply(m *treemap.Map, its *[nSlots]*iter, op Sx, st *stats) Sx {
 		m.Clear()
 		return List()
 	case opGet:
-		v, found := m.Get(K(arg(1)))
+		v, found := m.Get(mkKey(arg(1)))
 		if !found {
 			if v != nil {
 				return Ints(-1, -1, -1) // impossible shape: reported as a difference
@@ -332,9 +376,9 @@ func apply(m *treemap.Map, its *[nSlots]*iter, op Sx, st *stats) Sx {
 		}
 		return Ints(vOf(v)) // found: (v), with v = nilCode for a nil value
 	case opContains:
-		return Bool(m.Contains(K(arg(1))))
+		return Bool(m.Contains(mkKey(arg(1))))
 	case opGetOrDefault:
-		return Int(vOf(m.GetOrDefault(K(arg(1)), toVal(arg(2)))))
+		return Int(vOf(m.GetOrDefault(mkKey(arg(1)), toVal(arg(2)))))
 	case opSize:
 		return Int(int64(m.Size()))
 	case opIsEmpty:
@@ -348,19 +392,19 @@ func apply(m *treemap.Map, its *[nSlots]*iter, op Sx, st *stats) Sx {
 	case opLastKey:
 		return optKey(m.LastKey())
 	case opFloorEntry:
-		return optEntry(m.FloorEntry(K(arg(1))))
+		return optEntry(m.FloorEntry(mkKey(arg(1))))
 	case opFloorKey:
-		return optKey(m.FloorKey(K(arg(1))))
+		return optKey(m.FloorKey(mkKey(arg(1))))
 	case opCeilingEntry:
-		return optEntry(m.CeilingEntry(K(arg(1))))
+		return optEntry(m.CeilingEntry(mkKey(arg(1))))
 	case opCeilingKey:
-		return optKey(m.CeilingKey(K(arg(1))))
+		return optKey(m.CeilingKey(mkKey(arg(1))))
 	case opHigherEntry:
-		return optEntry(m.HigherEntry(K(arg(1))))
+		return optEntry(m.HigherEntry(mkKey(arg(1))))
 	case opHigherKey:
-		return optKey(m.HigherKey(K(arg(1))))
+		return optKey(m.HigherKey(mkKey(arg(1))))
 	case opLowerEntry:
-		return optEntry(m.VerifLowerEntry(K(arg(1))))
+		return optEntry(m.VerifLowerEntry(mkKey(arg(1))))
 	case opKeys:
 		ks := m.Keys()
 		l := make([]Sx, len(ks))
@@ -390,7 +434,7 @@ func apply(m *treemap.Map, its *[nSlots]*iter, op Sx, st *stats) Sx {
 			m.Foreach(func(k treemap.KeyType, v interface{}) {
 				l = append(l, Int(kOf(k)), Int(vOf(v)))
 				if idx == arg(1) {
-					if m.Remove(K(arg(2))) {
+					if m.Remove(mkKey(arg(2))) {
 						st.mutations++
 					}
 				}
@@ -512,6 +556,7 @@ func runOnce(in Sx, limit time.Duration) ([]Sx, stats, bool) {
 	done := make(chan result, 1)
 	partial := make(chan Sx, in.Len()+1)
 	cmpDiff = in.Len()%2 == 0
+	keyKind = []int{0, 0, 1, 2}[in.Len()%4]
 	go func() {
 		m := treemap.New()
 		var its [nSlots]*iter
@@ -808,6 +853,7 @@ func gen(a Args, out *Out) {
 			branches[b] += n
 		}
 		out.CountN("SetValue on live entries", st.setValues)
+		out.Count([]string{"key kind: int64, difference comparator", "key kind: int64, -1/0/+1", "key kind: struct{id,tag} compared on id (fresh tag per call), difference comparator", "key kind: pointer compared on *id (fresh pointer per call), -1/0/+1"}[in.Len()%4])
 		if st.corrupted {
 			out.Count("histories with a corrupted structure (parent links / node count)")
 		}
